@@ -353,9 +353,17 @@ func (m *Machine) allocBound(c *Config, n Term, pos token.Pos) {
 	}
 	// every allocation whose size comes from the wire must be bounded by the
 	// remaining input (each element costs at least one octet) or a fixed constant
+	// (remaining input) + 2 x (input consumed by this call so far) + 64 Ki: geometric growth of a
+	// list whose elements have really been read is within it, a declared length alone is not
 	_, total, p := m.inputState(c.st)
 	remaining := BVSub(total, p)
 	bound := BVAdd(remaining, BVLitI(65536, 64))
+	if m.cur.old != nil {
+		if p0, ok := m.ghost(m.cur.old, "@pos").(Term); ok {
+			consumed := BVSub(p, p0)
+			bound = BVAdd(bound, BVAdd(consumed, consumed))
+		}
+	}
 	site := ""
 	if pos.IsValid() {
 		pp := m.fset.Position(pos)
